@@ -87,6 +87,14 @@ func openReadSchedAfter(format string, b []byte, dict int, sched []int) (out []b
 			out, readErr = io.ReadAll(r)
 			return
 		}
+		if len(sched) == 1 && sched[0] == -1 {
+			// drained with io.Copy into a plain writer: an optional io.WriterTo of the reader
+			// would be used on this path
+			var buf bytes.Buffer
+			_, readErr = io.Copy(struct{ io.Writer }{&buf}, r)
+			out = buf.Bytes()
+			return
+		}
 		for i := 0; ; i++ {
 			l := sched[len(sched)-1]
 			if i < len(sched) {
@@ -378,14 +386,14 @@ func checkC05(c *ev.Ctx) {
 		if !want(c, id) {
 			return
 		}
-		// every prefix is read three times: like io.ReadAll, one byte at a time, and with a
-		// buffer that the bytes decodable from the prefix fill exactly (the verdict on a
-		// truncated stream must not depend on the caller's buffer sizes)
+		// every prefix is read four times: like io.ReadAll, one byte at a time, with a buffer
+		// that the bytes decodable from the prefix fill exactly, and through io.Copy (the
+		// verdict on a truncated stream must not depend on how the caller drains the reader)
 		c.Eval(id, true)
 		delivered := -1
 		var cerr, rerr error
 		var out []byte
-		for si, schedName := range []string{"readall", "one-byte", "exact-fill"} {
+		for si, schedName := range []string{"readall", "one-byte", "exact-fill", "io.Copy"} {
 			var sched []int
 			switch si {
 			case 1:
@@ -395,6 +403,8 @@ func checkC05(c *ev.Ctx) {
 					continue
 				}
 				sched = []int{delivered}
+			case 3:
+				sched = []int{-1}
 			}
 			var pn *mon.Panic
 			var after string
